@@ -101,6 +101,23 @@ type cbHandler struct {
 	started chan struct{}
 }
 
+// futureDepthKey: how many graphs have started, one below the other, under the run this handler was given to. The
+// handler is inherited through the context by every graph that runs below the agent (a tool that runs a compiled graph,
+// an agent used as a tool); only the outermost one is the run the future belongs to.
+type futureDepthKey struct{ h *cbHandler }
+
+// enter counts one more graph start and tells whether it is the outermost one.
+func (h *cbHandler) enter(ctx context.Context) (context.Context, bool) {
+	depth, _ := ctx.Value(futureDepthKey{h}).(int)
+	return context.WithValue(ctx, futureDepthKey{h}, depth+1), depth == 0
+}
+
+// outermost: an end / error callback is handed the context its start callback returned.
+func (h *cbHandler) outermost(ctx context.Context) bool {
+	depth, _ := ctx.Value(futureDepthKey{h}).(int)
+	return depth <= 1
+}
+
 func (h *cbHandler) GetMessages() *Iterator[*schema.Message] {
 	<-h.started
 
@@ -162,6 +179,11 @@ func (h *cbHandler) onToolEndWithStreamOutput(ctx context.Context,
 func (h *cbHandler) onGraphError(ctx context.Context,
 	_ *callbacks.RunInfo, err error) context.Context {
 
+	if !h.outermost(ctx) {
+		// a graph below the agent's: its error reaches the run through the node that started it
+		return ctx
+	}
+
 	if h.msgs != nil {
 		h.msgs.Send(item[*schema.Message]{err: err})
 	} else {
@@ -174,7 +196,9 @@ func (h *cbHandler) onGraphError(ctx context.Context,
 func (h *cbHandler) onGraphEnd(ctx context.Context,
 	_ *callbacks.RunInfo, _ callbacks.CallbackOutput) context.Context {
 
-	h.msgs.Close()
+	if h.outermost(ctx) {
+		h.msgs.Close()
+	}
 
 	return ctx
 }
@@ -185,13 +209,20 @@ func (h *cbHandler) onGraphEndWithStreamOutput(ctx context.Context,
 	// this handler's copy of the graph's output is not read: give it up, or the source stays open
 	output.Close()
 
-	h.sMsgs.Close()
+	if h.outermost(ctx) {
+		h.sMsgs.Close()
+	}
 
 	return ctx
 }
 
 func (h *cbHandler) onGraphStart(ctx context.Context,
 	_ *callbacks.RunInfo, _ callbacks.CallbackInput) context.Context {
+
+	ctx, outermost := h.enter(ctx)
+	if !outermost {
+		return ctx
+	}
 
 	h.msgs = internal.NewUnboundedChan[item[*schema.Message]]()
 
@@ -205,6 +236,11 @@ func (h *cbHandler) onGraphStartWithStreamInput(ctx context.Context, _ *callback
 
 	// this handler's copy of the graph's input is not read: give it up, or the source stays open
 	input.Close()
+
+	ctx, outermost := h.enter(ctx)
+	if !outermost {
+		return ctx
+	}
 
 	h.sMsgs = internal.NewUnboundedChan[item[*schema.StreamReader[*schema.Message]]]()
 
